@@ -156,7 +156,8 @@ fn tok_run(a: &Args) -> Args {
     let mut clones: Vec<Option<Box<Runner>>> = vec![None];
     let mut created: Vec<bool> = vec![true];
     let mut owner: Vec<usize> = Vec::new();
-    let mut shutdowns: Vec<Pin<Box<dyn Future<Output = ()>>>> = Vec::new();
+    // shutdown futures of the clones that were shut down: (clone, future, its waker's counter, wakes seen at the last Pending poll)
+    let mut shutdowns: Vec<(usize, Option<Pin<Box<dyn Future<Output = ()>>>>, Arc<Count>, usize)> = Vec::new();
     let mut futs: Vec<Option<TokFut>> = Vec::new();
     let mut toks: Vec<Option<Token>> = Vec::new();
     let mut kept: Vec<Option<TokFut>> = Vec::new();
@@ -273,11 +274,30 @@ fn tok_run(a: &Args) -> Args {
                             }
                         }
                     }
-                    let _ = sd.as_mut().poll(&mut cx);
-                    shutdowns.push(sd);
+                    shutdowns.push((x, Some(sd), Arc::new(Count(AtomicUsize::new(0))), usize::MAX));
                 }
             },
             _ => {},
+        }
+        // C14 on the shutdown futures of the clones: each completes exactly when no token of ITS OWN clone is alive (whatever the other
+        // clones do), and a pending one has been woken by the time its last token is gone
+        for (cl, fut, cnt, seen) in shutdowns.iter_mut() {
+            if let Some(f) = fut.as_mut() {
+                let alive = (0..toks.len()).filter(|&i| owner[i] == *cl && (toks[i].is_some() || conns[i].is_some())).count();
+                if alive == 0 && *seen != usize::MAX {
+                    assert!(cnt.0.load(Ordering::SeqCst) > *seen, "the last token of a shut-down clone is gone but its shutdown future was not woken");
+                }
+                let waker = Waker::from(cnt.clone());
+                let mut scx = Context::from_waker(&waker);
+                let before = cnt.0.load(Ordering::SeqCst);
+                let ready = f.as_mut().poll(&mut scx).is_ready();
+                assert_eq!(ready, alive == 0, "a clone's shutdown future must be ready exactly when none of that clone's tokens is alive");
+                if ready {
+                    *fut = None;
+                } else {
+                    *seen = before;
+                }
+            }
         }
         let live = (toks.iter().filter(|t| t.is_some()).count() + conns.iter().filter(|c| c.is_some()).count()) as u128;
         assert!(live <= maxc as u128, "more live tokens than max_conns");
